@@ -61,7 +61,7 @@ def probe_reuse(root, home, sched, workdir):
     """One run under gdb. -> dict(calls, eligible, hits, keys) or None when the probe is unavailable.
 
     x86-64 SysV: the enum result is returned through a hidden pointer in rdi, so component_key=rsi,
-    alias_enabled=edx, dut_reuse=r9d.  Validated on every probe: both flags must be 0/1 and dut_reuse
+    alias_enabled=edx, ff_start=rcx, comb_start=r8, dut_reuse=r9d.  Validated on every probe: both flags must be 0/1 and dut_reuse
     must equal what the environment asked for, otherwise the probe is discarded."""
     sym = reuse_symbol()
     if not sym:
@@ -70,7 +70,7 @@ def probe_reuse(root, home, sched, workdir):
     with open(cmds, "w") as f:
         f.write("set pagination off\nset confirm off\n"
                 f"break {sym}\ncommands\nsilent\n"
-                "printf \"REUSEPROBE %lx %d %d\\n\", $rsi, $edx, $r9d\ncontinue\nend\nrun\n")
+                "printf \"REUSEPROBE %lx %d %d %ld %ld\\n\", $rsi, $edx, $r9d, $rcx, $r8\ncontinue\nend\nrun\n")
     argv = ["gdb", "-nx", "-q", "-batch", "-x", cmds, "--args", VERYL, "test", "--quiet", "--format", "json",
             "--seed", str(sched["seed"]), "--backend", sched["backend"]]
     try:
@@ -80,9 +80,10 @@ def probe_reuse(root, home, sched, workdir):
         return None
     want = 1 if (sched.get("env") or {}).get("VERYL_DUT_REUSE") != "0" else 0
     per_key = {}
+    offsets = {}
     calls = 0
     for line in p.stdout.decode("utf-8", "replace").splitlines():
-        m = re.match(r"^REUSEPROBE ([0-9a-f]+) (-?\d+) (-?\d+)$", line)
+        m = re.match(r"^REUSEPROBE ([0-9a-f]+) (-?\d+) (-?\d+) (-?\d+) (-?\d+)$", line)
         if not m:
             continue
         calls += 1
@@ -91,10 +92,14 @@ def probe_reuse(root, home, sched, workdir):
             return None                       # ABI guess does not hold for this build
         if alias == 0 and reuse == 1:
             per_key[m.group(1)] = per_key.get(m.group(1), 0) + 1
+            offsets.setdefault(m.group(1), set()).add((int(m.group(4)), int(m.group(5))))   # (ff_start, comb_start)
     if calls == 0:
         return None
     return {"calls": calls, "eligible": sum(per_key.values()), "keys": len(per_key),
-            "hits": sum(n - 1 for n in per_key.values())}
+            "hits": sum(n - 1 for n in per_key.values()),
+            # components really relocated: requested at >= 2 different (ff_start, comb_start) placements
+            "keys_at_distinct_offsets": sum(1 for v in offsets.values() if len(v) >= 2),
+            "distinct_placements": sum(len(v) for v in offsets.values() if len(v) >= 2)}
 
 
 def reuse_schedules(rng, suite, seed, npairs, backends):
@@ -130,6 +135,7 @@ def check_suite(run, suite, scratch, rng, npairs, backends, probe=True, prop=PRO
     c32.write_suite(suite, root)
     seed = rng.next() & ((1 << 63) - 1)
     scheds = reuse_schedules(rng, suite, seed, npairs, backends)
+    shapes = suite.get("shapes") or {}
     refs = {}
     replay = {"suite": suite, "seed": seed}
     for s in scheds:
@@ -181,6 +187,21 @@ def check_suite(run, suite, scratch, rng, npairs, backends, probe=True, prop=PRO
                           f"{kind}: test {t} {field} differs between [{c32.sched_label(base_s)}] and "
                           f"[{c32.sched_label(s)}]: {str(va)[:160]!r} vs {str(vb)[:160]!r}",
                           dict(replay, sched_a=base_s, sched_b=s, diffs=[list(map(str, d)) for d in diffs[:10]]))
+    if shapes and refs:
+        # shapes the relocation path needs: one DUT (>= 256 bytes, derived clock in a submodule) used by
+        # >= 2 tests of the run in different testbench layouts (= different ff/comb offsets)
+        if len(shapes.get("focus_tests", [])) >= 2 and len(shapes.get("focus_layouts", [])) >= 2:
+            run.count("suites_with_nested_derived_clock_dut")
+            run.count("tests_on_nested_derived_clock_dut", len(shapes["focus_tests"]))
+            run.count("dut_at_distinct_offsets", len(shapes["focus_layouts"]))
+        run.count("shared_duts_at_distinct_layouts", len(shapes.get("shared_duts_at_distinct_layouts", [])))
+        run.seen("nested_clock_dut_kinds", shapes.get("focus_dut", "").split("#")[0])
+        for l in shapes.get("focus_layouts", []):
+            run.seen("focus_dut_layouts", l)
+        base = next(iter(refs.values()))[0]
+        run.count("focus_tests_reaching_the_end",
+                  sum(1 for t in shapes.get("focus_tests", [])
+                      if f"E {t} done" in (base["results"][t][2] or "")))
     if probe:
         s = {"cpus": None, "backend": "cranelift" if "cranelift" in backends else backends[0], "seed": seed,
              "env": dict(REUSE_ON0), "timings": None, "order_style": "none"}
@@ -192,6 +213,8 @@ def check_suite(run, suite, scratch, rng, npairs, backends, probe=True, prop=PRO
             run.count("reuse_hits_observed", info["hits"])
             run.count("reuse_eligible_requests", info["eligible"])
             run.count("reuse_components", info["keys"])
+            run.count("reuse_components_relocated_to_distinct_offsets", info["keys_at_distinct_offsets"])
+            run.count("reuse_distinct_placements", info["distinct_placements"])
             if info["hits"] > 0:
                 run.count("suites_with_reuse_hits")
     if not os.environ.get("VERIF_KEEP_SCRATCH"):
@@ -249,9 +272,13 @@ def main():
                 run.nontrivial(hash_str(json.dumps(suite["files"], sort_keys=True)))
     floors = [("suites_run", max(1, nsuites * 3 // 4)), ("pairs_reuse_on_vs_off", nsuites * 2),
               ("tests_compared", nsuites * 20), ("configs", min(6, nsuites * 2)),
-              ("tests_passing", nsuites), ("tests_failing", 1)]
+              ("tests_passing", nsuites), ("tests_failing", 1),
+              ("suites_with_nested_derived_clock_dut", max(1, nsuites // 2)),
+              ("dut_at_distinct_offsets", nsuites), ("tests_on_nested_derived_clock_dut", nsuites),
+              ("focus_tests_reaching_the_end", nsuites)]
     if probe_ok:
-        floors += [("reuse_hits_observed", max(1, nsuites // probe_every)), ("suites_with_reuse_hits", 1)]
+        floors += [("reuse_hits_observed", max(1, nsuites // probe_every)), ("suites_with_reuse_hits", 1),
+                   ("reuse_components_relocated_to_distinct_offsets", 1)]
     else:
         run.note("gdb/nm or the try_reuse_or_claim symbol is unavailable: reuse hits could not be observed")
     if args.replay:
